@@ -1653,6 +1653,67 @@ def levinson_reference_text():
     return reference_text('LEVINSON')
 
 
+# ---------------------------------------------------------------- arburg: translation + theorem (T4)
+ARBURG_PROOF = 'Proofs/LoopIRArburg.v'
+ARBURG_THEOREMS = ['loopir_arburg_model', 'loopir_arburg_nocrit', 'loopir_arburg_crit', 'loopir_arburg_tie']
+ARBURG_BLOCK = """
+(* The program regenerated on this run is, term for term, the one Proofs/LoopIRArburg.v is about: its theorems apply. *)
+Require Import Spectrum.Theory.Ops Spectrum.Theory.Vec Spectrum.Model.Burg Spectrum.Model.LoopIRTie Spectrum.Proofs.LoopIRArburg.
+Lemma prog_arburg_is_ref : prog_arburg = prog_arburg_ref.
+Proof. reflexivity. Qed.
+(* for ALL data (both dtype tags), ANY integer order, criteria omitted or any string, any abstract order-selection rule [stop]: the run
+   returns / raises exactly what the hand-written model says (ValueError for order <= 0, order > len(X) and rho <= 0 at any stage;
+   the early stop returns the previous stage).  A falsy criteria (omitted, the empty string) means no order selection. *)
+Theorem loopir_arburg_model :
+  forall (F : Type) (OF : Ops F) (L : Laws OF) (feq : F -> F -> bool) (stop : Z -> F -> F -> bool)
+         (t : bool) (x : list F) (order : Z) (crit : option string),
+  run feq stop prog_arburg [Some (VArr t x); Some (VI order); option_map VStr crit] =
+  match arburg x (Z.to_nat order)
+               (match crit with
+                | Some s => if String.eqb s ""%string then no_stop else (fun k a b => stop (Z.of_nat k) a b)
+                | None => no_stop
+                end) with
+  | Some (a, rho, ref) => ORet [VArr false a; VF rho; VArr false ref]
+  | None => OErr ValueError
+  end.
+Proof. intros. rewrite prog_arburg_is_ref. apply (arburg_ir_run feq stop t x order crit). Qed.
+(* criteria=None, omitted or given *)
+Theorem loopir_arburg_nocrit :
+  forall (F : Type) (OF : Ops F) (L : Laws OF) (feq : F -> F -> bool) (stop : Z -> F -> F -> bool)
+         (t : bool) (x : list F) (order : Z) (c3 : option (@value F)),
+  c3 = None \\/ c3 = Some VNone ->
+  run feq stop prog_arburg [Some (VArr t x); Some (VI order); c3] =
+  match arburg x (Z.to_nat order) no_stop with
+  | Some (a, rho, ref) => ORet [VArr false a; VF rho; VArr false ref]
+  | None => OErr ValueError
+  end.
+Proof. intros. rewrite prog_arburg_is_ref. apply arburg_ir_nocrit; assumption. Qed.
+(* a Criteria object: the interpreter's abstract rule is the stop argument of the model *)
+Theorem loopir_arburg_crit :
+  forall (F : Type) (OF : Ops F) (L : Laws OF) (feq : F -> F -> bool) (stop : Z -> F -> F -> bool)
+         (t : bool) (x : list F) (order : Z) (s : string),
+  s <> ""%string ->
+  run feq stop prog_arburg [Some (VArr t x); Some (VI order); Some (VStr s)] =
+  match arburg x (Z.to_nat order) (fun k a b => stop (Z.of_nat k) a b) with
+  | Some (a, rho, ref) => ORet [VArr false a; VF rho; VArr false ref]
+  | None => OErr ValueError
+  end.
+Proof. intros. rewrite prog_arburg_is_ref. apply arburg_ir_crit; assumption. Qed.
+(* hence the boolean of the exact evaluation tie is true on its whole domain, for every reflexive equality test *)
+Theorem loopir_arburg_tie :
+  forall (F : Type) (OF : Ops F) (L : Laws OF) (feq : F -> F -> bool), (forall a, feq a a = true) ->
+  forall (stop : Z -> F -> F -> bool) (isreal : bool) (x : list F) (order : Z) (crit : option string),
+  crit <> Some ""%string ->
+  tie_arburg feq stop prog_arburg isreal x order crit = true.
+Proof. intros. rewrite prog_arburg_is_ref. apply arburg_ir_tie; assumption. Qed.
+Print Assumptions loopir_arburg_model.
+Print Assumptions loopir_arburg_nocrit.
+Print Assumptions loopir_arburg_crit.
+Print Assumptions loopir_arburg_tie.
+"""
+THEOREMS['arburg'] = dict(proof=ARBURG_PROOF, theorems=ARBURG_THEOREMS, block=ARBURG_BLOCK)
+
+
 def reference_text_in(proof, name):
     """the program text of <name> that <proof> was proved about (between its BEGIN/END GENERATED <name> markers)"""
     t = open(os.path.join(vlib.COQ, proof)).read()
